@@ -296,7 +296,7 @@ def leaf_specs(ctx):
     for m in ([3.0, 0.7] if q else [3.0, 0.7, 1.0, 5.0, 0.05, 12.0, 19.5]):
         specs.append(dict(kind="leaky", max_val=fhex(m)))
     splines = [(4, 2.0, 0.0), (2, 2.0, 0.0)]  # initial parameters (identity map): the D1 witness lives here
-    n_pert = 5 if q else 40
+    n_pert = 3 if q else 40
     for i in range(n_pert):
         knots = int(r.integers(1, 9))
         iv = [2.0, 1.0, [-1.5, 3.0], 5.0, [-4.0, 0.5], [0.0, 3.0], [-2.0, 0.0]][i % 7] if i >= 2 else [1.0, [-1.5, 3.0]][i]
@@ -444,13 +444,14 @@ def value_classes(ctx):
 
 
 # =============================================================== 4. the oracle on the flow factories
-def trainable_perturb(dist, key, s):
+def trainable_perturb(dist, seed, s):
+    """raw trainable leaves + N(0, s^2) (NonTrainable nodes untouched, as flowjax's own training does); numpy RNG: deterministic, no compilation"""
     l = L()
-    eqx, jax, jr, W = l["eqx"], l["jax"], l["jr"], l["W"]
+    eqx, jax, jnp, W = l["eqx"], l["jax"], l["jnp"], l["W"]
     params, static = eqx.partition(dist, eqx.is_inexact_array, is_leaf=lambda n: isinstance(n, W.NonTrainable))
     leaves, td = jax.tree_util.tree_flatten(params)
-    ks = jr.split(key, max(1, len(leaves)))
-    leaves = [lf + s * jr.normal(k, lf.shape, lf.dtype) for lf, k in zip(leaves, ks)]
+    r = np.random.default_rng(int(seed))
+    leaves = [lf + jnp.asarray(s * r.normal(size=lf.shape), dtype=lf.dtype) for lf in leaves]
     return eqx.combine(jax.tree_util.tree_unflatten(td, leaves), static)
 
 
@@ -466,20 +467,22 @@ def factories(ctx):
             for inv in inverts:
                 out.append((name, dim, inv, fn))
 
-    add("masked_autoregressive_flow[Affine]", [1, 3] if q else [1, 2, 3], lambda k, d, inv: F.masked_autoregressive_flow(k, base_dist=D.StandardNormal((d,)), invert=inv, **small), (True,) if q else (True, False))
+    both = (True,) if q else (True, False)
+    add("masked_autoregressive_flow[Affine]", [3] if q else [1, 2, 3], lambda k, d, inv: F.masked_autoregressive_flow(k, base_dist=D.StandardNormal((d,)), invert=inv, **small), both)
     add("masked_autoregressive_flow[RQS]", [1, 2] if q else [1, 2, 3], lambda k, d, inv: F.masked_autoregressive_flow(
-        k, base_dist=D.StandardNormal((d,)), transformer=B.RationalQuadraticSpline(knots=4, interval=2), invert=inv, **small), (True,) if q else (True, False))
-    add("coupling_flow[Affine]", [2] if q else [2, 3], lambda k, d, inv: F.coupling_flow(k, base_dist=D.StandardNormal((d,)), invert=inv, **small), (True,) if q else (True, False))
+        k, base_dist=D.StandardNormal((d,)), transformer=B.RationalQuadraticSpline(knots=4, interval=2), invert=inv, **small), both)
+    add("coupling_flow[Affine]", [2] if q else [2, 3], lambda k, d, inv: F.coupling_flow(k, base_dist=D.StandardNormal((d,)), invert=inv, **small), both)
     add("coupling_flow[RQS]", [3] if q else [2, 3], lambda k, d, inv: F.coupling_flow(
-        k, base_dist=D.StandardNormal((d,)), transformer=B.RationalQuadraticSpline(knots=3, interval=(-1.0, 3.0)), invert=inv, **small), (True,) if q else (True, False))
+        k, base_dist=D.StandardNormal((d,)), transformer=B.RationalQuadraticSpline(knots=3, interval=(-1.0, 3.0)), invert=inv, **small), both)
     # BNAF: only the default orientation (log_prob = forward pass); invert=False would need the numerical inverse, which can hang
-    add("block_neural_autoregressive_flow", [1, 2] if q else [1, 2, 3], lambda k, d, inv: F.block_neural_autoregressive_flow(
+    add("block_neural_autoregressive_flow", [2] if q else [1, 2, 3], lambda k, d, inv: F.block_neural_autoregressive_flow(
         k, base_dist=D.StandardNormal((d,)), nn_block_dim=3, flow_layers=2, invert=True))
     add("planar_flow", [2] if q else [1, 2, 3], lambda k, d, inv: F.planar_flow(k, base_dist=D.StandardNormal((d,)), flow_layers=3, invert=True))
-    add("planar_flow[leaky_relu]", [3] if q else [2, 3], lambda k, d, inv: F.planar_flow(
-        k, base_dist=D.StandardNormal((d,)), flow_layers=3, invert=inv, negative_slope=0.1), (True,) if q else (True, False))
+    if not q:
+        add("planar_flow[leaky_relu]", [2, 3], lambda k, d, inv: F.planar_flow(
+            k, base_dist=D.StandardNormal((d,)), flow_layers=3, invert=inv, negative_slope=0.1), both)
     add("triangular_spline_flow", [1, 2] if q else [1, 2, 3], lambda k, d, inv: F.triangular_spline_flow(
-        k, base_dist=D.StandardNormal((d,)), flow_layers=2, knots=4, invert=inv), (True,) if q else (True, False))
+        k, base_dist=D.StandardNormal((d,)), flow_layers=2, knots=4, invert=inv), both)
     return out
 
 
@@ -549,11 +552,11 @@ def run_flows(ctx):
     uo = ctx.unit("oracle", "")
     n = 48 if ctx.quick else 256
     for name, dim, inv, fn in factories(ctx):
-        for variant, scale in ([("initial", 0.0), ("perturbed", 0.5)] if ctx.quick else [("initial", 0.0), ("perturbed", 0.3), ("perturbed", 1.0), ("perturbed", 2.0)]):
-            seed = int(ctx.rng.integers(0, 2 ** 31 - 1))
-            dist = fn(jr.PRNGKey(seed), dim, inv)
-            if scale:
-                dist = trainable_perturb(dist, jr.PRNGKey(seed + 1), scale)
+        seed = int(ctx.rng.integers(0, 2 ** 31 - 1))
+        dist0 = fn(jr.PRNGKey(seed), dim, inv)   # built once: the perturbed variants share its static part (one compilation)
+        for variant, scale in ([("initial", 0.0), ("perturbed", 0.5), ("perturbed", 1.5)] if ctx.quick else
+                               [("initial", 0.0), ("perturbed", 0.3), ("perturbed", 1.0), ("perturbed", 2.0)]):
+            dist = trainable_perturb(dist0, seed + 1, scale) if scale else dist0
             xs = flow_inputs(ctx, dist, dim, n)
             v, gx, fin = flow_eval(dist, xs)
             for i in range(len(xs)):
@@ -605,7 +608,7 @@ def run(ctx):
             j += 1
             for base in bases:
                 ds = dict(leaf=spec, inverted=inverted, base=base)
-                run_leaf(ctx, u, uo, ds, pg=(spec["kind"] == "rqs"), n_rand=n_rand)
+                run_leaf(ctx, u, uo, ds, pg=(spec["kind"] == "rqs" and (not ctx.quick or base is None)), n_rand=n_rand)
     ctx.notes.append(f"leaf tie+oracle {time.time() - t0:.1f}s")
     t0 = time.time()
     run_flows(ctx)
@@ -644,7 +647,7 @@ def replay(ctx, rep):
         cand = [f for (n, d, i), f in fn.items() if n == c["factory"]]
         dist = cand[0](jr.PRNGKey(c["seed"]), c["dim"], c["invert"])
         if c["perturb"]:
-            dist = trainable_perturb(dist, jr.PRNGKey(c["seed"] + 1), c["perturb"])
+            dist = trainable_perturb(dist, c["seed"] + 1, c["perturb"])
         xs = np.array([[fparse(t) for t in c["x"]]], dtype=float)
         v, gx, fin = flow_eval(dist, xs)
         bad = (v[0] != v[0]) or (math.isfinite(v[0]) and not bool(fin[0]))
